@@ -43,7 +43,10 @@ structure WorldSt where
   lastSim : Option (Nat × Asset × Nat × String) := none          -- pair, offer, amount, result
   lastRouteSim : Option (Nat × List (Asset × Asset) × String) := none
   pairsSeen : List Nat := []
-  lpFirst : List (Nat × Nat) := []                 -- pair ↦ its LP token as first observed (at creation)
+  lpFirst : List (Nat × Nat) := []
+  acctSeen : List Nat := []                        -- accounts whose balances the harness observes
+  assetSeen : List Asset := []                     -- assets whose balances the harness observes
+  lastRouteDir : String := ""                      -- "rsimops" (forward) or "rrev" (reverse): which query `lastRouteSim` holds                 -- pair ↦ its LP token as first observed (at creation)
   tokDecimals : List (Nat × Nat) := []
 
 /-- lenient number parsing: absent / malformed observations read as 0 instead of aborting the driver -/
@@ -125,9 +128,12 @@ def modelObs (w : World) (key : String) : String :=
   | ["bal", a, who] => toString (bal w (parseAsset a) who.toNatD)
   | ["supply", t] => match w.tok t.toNatD with | some T => toString T.supply | none => "?"
   | ["tdec", t] => match w.tok t.toNatD with | some T => toString T.decimals | none => "err"
-  | ["allow", t, o, s] => match w.tok t.toNatD with
+  | ["allow", t, o, s] =>
+    -- the allowance query validates both address strings
+    if w.badAddr o.toNatD || w.badAddr s.toNatD then "err" else
+    match w.tok t.toNatD with
       | some T => toString ((T.allow o.toNatD s.toNatD).getD 0)
-      | none => "?"
+      | none => "err"
   | ["owner"] => toString w.owner
   | ["codes"] => s!"{w.pairCode} {w.tokenCode}"
   | ["denom", d] => match w.denoms d.toNatD with | some k => toString k | none => "-"
@@ -316,6 +322,28 @@ def touched (st : WorldSt) (op : Op) : List Nat :=
 
 def fails (p note : String) (b : Bool) : List (String × String) := if b then [] else [(p, note)]
 
+def hookAssets : Hook → List Asset
+  | .swap a _ _ _ _ => [a]
+  | .routerOps ops _ _ => ops.flatMap fun (a, b) => [a, b]
+  | _ => []
+
+/-- the assets an operation names -/
+def opAssets : Op → List Asset
+  | .tokTransfer t .. | .tokIncAllow t .. | .tokBurn t .. | .tokTransferFrom t .. | .tokBurnFrom t .. | .tokDecAllow t .. => [.token t]
+  | .tokSend t _ _ _ h | .tokSendFrom t _ _ _ _ h => .token t :: hookAssets h
+  | .bankSend _ _ cs => cs.map fun c => .native c.1
+  | .pair _ _ f m => (f.map fun c => Asset.native c.1) ++ (match m with
+      | .provide a _ b _ _ _ => [a, b]
+      | .swap a _ _ _ _ => [a]
+      | .receive _ _ h => hookAssets h
+      | .updateDecimals .. => [])
+  | .router _ f m => (f.map fun c => Asset.native c.1) ++ (match m with
+      | .swapOps ops _ _ => ops.flatMap fun (a, b) => [a, b]
+      | .swapOp a b _ => [a, b]
+      | .assertMin a _ _ _ => [a]
+      | .receive _ _ h => hookAssets h)
+  | .factory _ f _ => f.map fun c => Asset.native c.1
+
 /-- all property predicates evaluated on the implementation's before/after observations of one step.
 `post = true`: the sequence has already diverged from the model (reported once); the oracles that read only the
 implementation's observations keep running so that a concrete failing input is found, minus the standing
@@ -323,6 +351,11 @@ implementation's observations keep running so that a concrete failing input is f
 from the observed reserves (`obsWindowSwap`), and skipped on router routes, where that needs the model -/
 def oracles (st : WorldSt) (pd : Pending) (post : Bool := false) : List (String × String) := Id.run do
   let mut out : List (String × String) := []
+  -- Balances are observed for the users, the system contracts and the first eight pairs (with their LP tokens), and for the
+  -- assets declared to the driver.  A step that involves an account or an asset *without* balance observations cannot be
+  -- judged on balances (an absent observation is not a zero): the model comparison still runs, the oracles stay silent.
+  if (touched st pd.op).any (fun z => !st.acctSeen.contains z) || (opAssets pd.op).any (fun a => !st.assetSeen.contains a) then
+    return []
   let changedBal := (st.changes.filter fun c => c.2.1 ≠ "").filterMap fun (k, o, n) =>
     match k.splitOn " " with
     | ["bal", a, who] => some (parseAsset a, who.toNatD, (n.toNatD : Int) - (o.toNatD : Int))
@@ -616,7 +649,8 @@ def oracles (st : WorldSt) (pd : Pending) (post : Bool := false) : List (String 
         if d = st.w.router then some (sp, ow, ops, mn, to, amt, .token t, []) else none
       -- a raw `Receive` sent to the router by anybody: the route runs on whatever the router holds; the default
       -- recipient is the `sender` field of the forged message
-      | .router _ _ (.receive f _ (.routerOps ops mn to)) =>
+      | .router _ rfunds (.receive f _ (.routerOps ops mn to)) =>
+        if !rfunds.isEmpty then none else
         (match ops.head? with
          | some (o, _) => some (f, f, ops, mn, to, 0, o, [])
          | none => some (f, f, [], mn, to, 0, .native 0, []))
@@ -654,7 +688,7 @@ def oracles (st : WorldSt) (pd : Pending) (post : Bool := false) : List (String 
             out := out ++ fails "C13" s!"router keeps a balance of {showAsset a} after the route" (balC st a st.w.router = 0)
           match st.lastRouteSim with
            | some (qa, qops, qres) =>
-             if qa = paidAmt && qops = ops then
+             if st.lastRouteDir == "rsimops" && qa = paidAmt && qops = ops then
                out := out ++ fails "C13" s!"recipient got {got}, router quoted {qres}" (qres = s!"ok {got}")
            | none => pure ()
           for a in routeAssets do
@@ -691,7 +725,9 @@ def oracles (st : WorldSt) (pd : Pending) (post : Bool := false) : List (String 
               | some k, some k' => out := out ++ fails "C16" s!"pair records {k} decimals for denom {d}, registered with {k'}" (k = k')
               | _, _ => pure ()
            | .token t =>
-             out := out ++ fails "C16" "pair created over an address that is not a live cw20" ((tokDec t).isSome)
+             -- positively known not to be a contract: an address string that fails validation (the upper-case aliases);
+             -- a token without a `tdec` observation (the LP token of a ninth or later pair) is simply not judged
+             out := out ++ fails "C16" "pair created over an address that is not a live cw20" (!st.w.badAddr t)
              match recorded, tokDec t with
               | some k, some k' => out := out ++ fails "C16" s!"pair records {k} decimals for token {t}, which reports {k'}" (k = k')
               | _, _ => pure ()
@@ -876,9 +912,14 @@ def worldLine (st : WorldSt) (line : String) : WorldSt × List String × String 
              | some v => st.lpFirst ++ [(p.toNatD, v.lp)]
              | none => st.lpFirst
          | _ => st.lpFirst
+       let (acctSeen, assetSeen) := match key.splitOn " " with
+         | ["bal", a, who] =>
+           ((if st.acctSeen.contains who.toNatD then st.acctSeen else who.toNatD :: st.acctSeen),
+            (if st.assetSeen.contains (parseAsset a) then st.assetSeen else parseAsset a :: st.assetSeen))
+         | _ => (st.acctSeen, st.assetSeen)
        ({ st with cur := cur, keys := if isNew then st.keys.push key else st.keys,
                   changes := if st.pending.isSome then (key, old, val) :: st.changes else st.changes,
-                  pairsSeen := pairsSeen, lpFirst := lpFirst }, [], fam, none)
+                  pairsSeen := pairsSeen, lpFirst := lpFirst, acctSeen := acctSeen, assetSeen := assetSeen }, [], fam, none)
      | _ => (st, [s!"DIVERGE {fam} model=parse :: {line}"], fam, none))
   | "query" :: _ :: q =>
     let (st0, outs0, v0) := finalize st
@@ -903,6 +944,11 @@ def worldLine (st : WorldSt) (line : String) : WorldSt × List String × String 
                | [a, b] => some (pairKey (st0.w.rawId (parseAsset a)) (st0.w.rawId (parseAsset b)))
                | _ => none
              let pg := readPairs st0.w.registry cursor (optN lim)
+             -- a cursor naming an asset that was never declared to the driver has no raw id here: not comparable
+             let undeclared := match start.splitOn "," with
+               | [a, b] => start != "-" && ((st0.w.rawId (parseAsset a)).isEmpty || (st0.w.rawId (parseAsset b)).isEmpty)
+               | _ => false
+             if undeclared then impl else
              s!"ok {wlStr (pg.map fun e => e.2.pair)}"
            | _ => "?"
          let same := if isFail model && isFail impl then true else model == impl
@@ -910,10 +956,12 @@ def worldLine (st : WorldSt) (line : String) : WorldSt × List String × String 
          -- oracle bits on queries
          let orc : List (String × String) := match q with
            | "rsimcomp" :: amt :: ops :: _ | "rrevcomp" :: amt :: ops :: _ =>
-             -- C12: the router's own answer (the query line just before) must equal the composition of the pairs' answers
+             -- C12: the router's own answer (the query line just before, in the same direction) must equal the composition
+             -- of the pairs' answers
              (match st0.lastRouteSim with
               | some (qa, qops, qres) =>
-                if qa = amt.toNatD && qops = parseOps ops && !isFail impl then
+                if st0.lastRouteDir == (if q.head? == some "rsimcomp" then "rsimops" else "rrev") &&
+                   qa = amt.toNatD && qops = parseOps ops && !isFail impl then
                   fails "C12" s!"router simulation ({qres}) differs from the hop-by-hop composition of the pair queries ({impl})" (qres == impl)
                 else []
               | none => [])
@@ -950,8 +998,8 @@ def worldLine (st : WorldSt) (line : String) : WorldSt × List String × String 
          let outs := outs ++ orc.map fun (p, note) => s!"ORACLE-FAIL {p} {note} :: {line}"
          let st1 := match q with
            | "sim" :: p :: a :: amt :: _ => { st0 with lastSim := some (p.toNatD, parseAsset a, amt.toNatD, impl) }
-           | "rsimops" :: amt :: ops :: _ => { st0 with lastRouteSim := some (amt.toNatD, parseOps ops, impl) }
-           | "rrev" :: amt :: ops :: _ => { st0 with lastRouteSim := some (amt.toNatD, parseOps ops, impl) }
+           | "rsimops" :: amt :: ops :: _ => { st0 with lastRouteSim := some (amt.toNatD, parseOps ops, impl), lastRouteDir := "rsimops" }
+           | "rrev" :: amt :: ops :: _ => { st0 with lastRouteSim := some (amt.toNatD, parseOps ops, impl), lastRouteDir := "rrev" }
            | _ => st0
          let v : Verdict := { diverge := if same then none else some model, oracle := orc, nontrivial := !isFail impl, tags := ["query"] }
          (st1, outs0 ++ outs, fam, some v)
@@ -987,8 +1035,19 @@ def worldLine (st : WorldSt) (line : String) : WorldSt × List String × String 
              | .factory s f (.createPair a0 a1 req c ld _ _), ["ok", "created", np, nl] => Op.factory s f (.createPair a0 a1 req c ld np.toNatD nl.toNatD)
              | o, _ => o
            let name := nameOf st0
-           let r := exec name st0.w op
            let implOk := impl.startsWith "ok"
+           -- cw20-base validates the recipient / spender *string* of Transfer, TransferFrom and IncreaseAllowance; the model's
+           -- ledger primitives do not look at address validity, so the driver applies that rule here
+           let cw20Bad := match op with
+             | .tokTransfer _ _ d _ => st0.w.badAddr d
+             | .tokIncAllow _ _ sp _ => st0.w.badAddr sp
+             | .tokTransferFrom _ _ _ d _ => st0.w.badAddr d
+             | _ => false
+           let r := if cw20Bad then .error .err else exec name st0.w op
+           -- outside the model: a pair migrated to an existing code that is not the pair code (it then runs foreign code)
+           let foreignMigrate := match op with
+             | .factory _ _ (.migratePair _ c) => implOk && c.getD st0.w.pairCode ≠ st0.w.envPairCode
+             | _ => false
            let (modelStr, w') : String × World := match r with
              | .ok (w', out) =>
                (match op, impl.splitOn " " with
@@ -1004,7 +1063,11 @@ def worldLine (st : WorldSt) (line : String) : WorldSt × List String × String 
                                  modelOk := !isFail modelStr }
            let st1 := { st0 with w := w', pending := some pd, changes := [],
                                  lastSim := if kind == "pair_swap" || kind == "tok_send" || kind == "tok_send_from" then st0.lastSim else none }
-           if sameRes then (st1, outs0, fam, v0)
+           if foreignMigrate then
+             -- not a divergence: the model has no state for a pair that runs foreign code; the rest of the sequence is
+             -- no longer compared (nor judged)
+             ({ st0 with pending := none, changes := [], desync := true }, outs0, fam, v0)
+           else if sameRes then (st1, outs0, fam, v0)
            else
              -- result mismatch: report now; the observations of this step are still read by the oracle, then the
              -- sequence is abandoned (model and implementation no longer share a state)
